@@ -197,3 +197,12 @@ add(fam("2q", ["s1g1n101", "s1g1n011", "s2g1n111"], ["look", "put"]) + ["h_2q::s
     "core subset: TwoQueueCache (size 1 two occupancies, size 2 all queues occupied), AdaptiveCache (size 1 two occupancies with "
     "ghosts, size 2 all lists occupied), WTinyLFUCache (1,1,1) full / probationary-full; one operation each; keys by pattern "
     "enumeration", mem=5)
+
+# ---- std configuration: count_min_sketch_std with symbolic seeds -------------------------------------
+add(["h_tlfu::r2l3::compare", "h_tlfu::r2l3::step_increment_hashed", "h_tlfu::r2l3::step_try_reset", "h_tlfu::r2l3::step_clear"],
+    ["C11", "C05"], "quick", 3,
+    "std build (count_min_sketch_std, the four row seeds symbolic): TinyLFU arbitrary state with 4 counters per row, one "
+    "operation; comparisons", mem=6, cfg="std")
+add(["h_tlfu::r2l3::step_increment", "h_tlfu::r2l3::single_key", "h_tlfu::r2l3::batch", "h_tlfu::r2l3::clone_step", "h_tlfu::r4l7::"],
+    ["C11", "C05", "C16"], "thorough", 3,
+    "std build: remaining TinyLFU harnesses at 4 counters per row and all of them at 8 counters per row", mem=10, cfg="std", tmul=2)
